@@ -50,6 +50,10 @@ def materialize(cls, defects, names):
         elif df == "cyclic_graph":
             G.add_edge(e, b, flow=0) if False else G.add_edge(c, b, flow=1)
             G[b][c]["flow"] += 1
+        elif df == "source_only_self_loop":      # the only way into the first node is its own self-loop: the graph has no source
+            G.add_edge(a, a, flow=1)
+        elif df == "sink_only_self_loop":        # ... and the only way out of the last node is a self-loop: no sink
+            G.add_edge(e, e, flow=1)
         elif df == "no_source":
             G.add_edge(b, a, flow=0)
         elif df == "no_sink":
